@@ -531,7 +531,6 @@ func (env *Env) c19Flags() {
 		return
 	}
 	e := env.engine()
-	sp := env.P.SSA[load.RepoPath(checkPkg)]
 	// closures of populateConfig
 	var setNonNil *ssa.Function
 	for _, a := range pc.AnonFuncs {
@@ -550,7 +549,7 @@ func (env *Env) c19Flags() {
 			if st, ok := in.(*ssa.Store); ok && st.Addr == ssa.Value(setNonNil.Params[0]) && st.Val == ssa.Value(setNonNil.Params[1]) {
 				if len(b.Preds) == 1 {
 					if iff, ok := b.Preds[0].Instrs[len(b.Preds[0].Instrs)-1].(*ssa.If); ok {
-						if bo, ok := iff.Cond.(*ssa.BinOp); ok && bo.Op == token.NEQ && bo.X == ssa.Value(setNonNil.Params[1]) && b.Preds[0].Succs[0] == b {
+						if bo, ok := iff.Cond.(*ssa.BinOp); ok && bo.Op == token.NEQ && (bo.X == ssa.Value(setNonNil.Params[1]) || bo.Y == ssa.Value(setNonNil.Params[1])) && b.Preds[0].Succs[0] == b {
 							okHelper = true
 						}
 					}
@@ -625,7 +624,7 @@ func (env *Env) c19Flags() {
 		{"setUint32", "MinimumQeSvn", `"minimum_qe_svn"`}, {"setUint32", "MinimumPceSvn", `"minimum_pce_svn"`},
 		{"setBool", "CheckCrl", `"check_crl"`}, {"setBool", "GetCollateral", `"get_collateral"`},
 	} {
-		f := sp.Func(w.fn)
+		f := env.P.Func(checkPkg, w.fn)
 		found := false
 		for _, c := range env.P.Callers[f] {
 			dest := e.Eval(c.Common().Args[0], e.UnknownCtx(c.Parent()))
@@ -737,7 +736,7 @@ func configChain(fa *ssa.FieldAddr) ([]string, bool) {
 		}
 		switch x := ld.X.(type) {
 		case *ssa.Global:
-			return path, x.Name() == "config"
+			return path, load.GlobalName(x) == checkPkg+".config"
 		case *ssa.FieldAddr:
 			cur = x
 		default:
